@@ -12,6 +12,16 @@ strength={
 "C20":"scenario mixes hang2/hang3 (several workers hanging in the same timeout window) and kill bursts; the pool floor (--init-procs restored after exits, within a bounded number of samples after faults stop) is monitored next to the --max-procs ceiling",
 }
 first_missed=set(strength)
+strength2={
+"C06":"C06 fixed families now leave a body through its handler in 12 ways (抛出, ÷0, undefined name, index, type error, arity errors of method / object method / constructor, rejected assignment / declaration) x {directly, in nested blocks, in a loop, one call deeper} and probe callee names, redeclaration in the caller's block and names of blocks that end afterwards (C09's quiescent scope-depth invariant caught it unchanged)",
+"C10":"C10 got an input-variable driver (texts without any statement: line breaks, comments, imports only; every right-hand-side kind); the same texts were added to C05's corpus",
+"C11":"written against 89a707f, where the unchanged tree itself had a related order dependence in the same loop (found through the agent's remark, repaired by 2ad8df6). On the repaired tree the change is deterministic (entries are visited in key order), so it no longer breaks C11 but C01 (structural equality); C01 got family (d): equality of container literals sharing 空 with one leaf changed",
+"C13":"the encoder now zero-pads `U+hex` escapes to any width up to the documented eight digits (8-digit, 9-digit and out-of-range spellings added to the reverse direction)",
+"C14":"shadow-slice relation: every 取样 position pair (negative and out-of-range included) is repeated on a text of equally many distinct one-byte characters and must select the same positions with the same outcome kind",
+"C16":"the worker's synthetic library now also exports the repository's HTTP响应 / HTTP请求 types; polluters mutate the headers of a freshly constructed response in place, probes construct responses of each content kind",
+"C18":"the renderer now also emits comments spanning several physical lines with 0..3 empty lines inside (/* */, 注：“”, 注：「」)",
+"C20":"pmharness workers now end with status 0 when Start returns an error, as cmd/zinc-playground does; new request mix 'garbage' (connections that carry no HTTP request) with the pool-floor monitor",
+}
 root='/verif/seeded'
 for d in sorted(os.listdir(root)):
     p=os.path.join(root,d)
@@ -52,6 +62,11 @@ for d in sorted(os.listdir(root)):
         m['missed_by_first_version']=True
         m['strengthening']=strength[prop]
     elif rnd==1:
+        m['missed_by_first_version']=False
+    elif rnd==2 and prop in strength2:
+        m['missed_by_first_version']=True
+        m['strengthening']=strength2[prop]
+    elif rnd==2:
         m['missed_by_first_version']=False
     m.update(extra)
     json.dump(m,open(p+'/meta.json','w'),ensure_ascii=False,indent=1)
